@@ -80,6 +80,16 @@ MUTANTS = [
      "        raise AttributeError(name)", "        del self.__dict__[attr]"),
     ('C10', 'delattr-exact', 'xtuml/meta.py',
      "            if uname == attr.upper():\n                del", "            if name == attr:\n                del"),
+    ('C16', 'no-ring-guard', 'xtuml/meta.py',
+     "                if inst is first:\n                    break", "                pass"),
+    ('C16', 'same-phrase', 'xtuml/meta.py',
+     "        other_phrase = link.phrase\n        break", "        other_phrase = phrase\n        break"),
+    ('C16', 'first-filter-inverted', 'xtuml/meta.py',
+     "    first_filt = lambda sel: not navigate_one(sel)", "    first_filt = lambda sel: navigate_one(sel)"),
+    ('C16', 'ring-starts-at-last', 'xtuml/meta.py',
+     "        first_instances = [set_of_instances.first]", "        first_instances = [set_of_instances.last]"),
+    ('C16', 'only-first-chain', 'xtuml/meta.py',
+     "        for first in first_instances:\n            inst = first", "        for first in first_instances[:1]:\n            inst = first"),
 ]
 
 
